@@ -34,8 +34,8 @@ from explorerscript.ssb_converting.compiler.compile_handlers.abstract import (
 )
 from explorerscript.ssb_converting.compiler.compile_handlers.atoms.integer_like import IntegerLikeCompileHandler
 from explorerscript.ssb_converting.compiler.utils import CompilerCtx
-from explorerscript.ssb_converting.ssb_data_types import SsbRoutineInfo, SsbRoutineType, SsbOpParam
-from explorerscript.util import exps_int
+from explorerscript.ssb_converting.ssb_data_types import SsbRoutineInfo, SsbRoutineType, SsbOpParam, SsbOpParamFixedPoint
+from explorerscript.util import exps_int, f, _
 
 
 class ForTargetDefCompileHandler(AbstractFuncdefCompileHandler[ExplorerScriptParser.For_target_defContext]):
@@ -50,6 +50,10 @@ class ForTargetDefCompileHandler(AbstractFuncdefCompileHandler[ExplorerScriptPar
         linked_to = -1
         linked_to_name = None
         integer_like = self._linked_to_target
+        if isinstance(integer_like, SsbOpParamFixedPoint):
+            raise SsbCompilerError(
+                f(_("The target of routine {self.get_new_routine_id(0)} must be an integer or a constant, not a decimal."))
+            )
         try:
             linked_to = exps_int(integer_like)  # type: ignore
         except ValueError:
